@@ -112,6 +112,8 @@ def _ops(r, g, arr, qarr, trees, fns, pref, depth, n):
         elif x < 0.78 and depth > 0:
             ops.append({"op": "ctx", "body": _ops(r, g, arr, qarr, trees, fns, pref, depth - 1, r.randrange(1, 5)),
                         "exit": "ret" if r.random() < 0.8 else ["raise", r.choice(("ValueError", "KeyboardInterrupt"))]})
+            if r.random() < 0.3:  # one module-level `ctx = jaxtyped("context")` object used by all threads
+                ops[-1]["obj"] = "shared1"
         elif depth > 0 and fns:
             fid = r.choice(sorted(fns))
             f = fns[fid]
